@@ -266,7 +266,7 @@ CHECKS = {
    note="Trusted: Coq kernel + vm_compute; Bignums/Uint63 primitives for the executed instance only; hand-written model tied by sampled "
         "correspondence; harness. Theorems conditional on the model returning Ok (all inner systems met by the schedule invertible). "
         "The model follows the fixed code (F01: self-connections are rejected).",
-   technique="Coq proof (all netlists, all schedules) + vm_compute correspondence vs implementation + source-to-Gallina translation of split_in_out / get_S_back / sel_* proved equal to the model on every run", design="§5 C01"),
+   technique="Coq proof (all netlists, all schedules) + vm_compute correspondence vs implementation + source-to-Gallina translation of split_in_out / get_S_back / sel_* / the pin list of join proved equal to the model on every run", design="§5 C01"),
  "C18": dict(
    text="Proof: props/C18.v states, for every dimension triple and every scalar field satisfying the laws of Field.v, that "
         "the model of S_matrix.add is the exact elimination of the shared ports (soundness, existence and uniqueness of the "
